@@ -357,6 +357,9 @@ static int runAbort(const std::string& cls, uint64_t seed, int n, const std::str
     }
     rep.stat["gen_time_us"] = (long long)(genTime * 1e6);
     Mat other; parseClass(cls == "KRK" ? "KQK" : "KRK", other);
+    Dump DO; bool haveOther = false;
+    { std::string dir = dumpFile.substr(0, dumpFile.find_last_of('/') + 1); haveOther = DO.load(dir + other.name + ".dtm"); }
+    rep.stat["other_class_dump_loaded"] = haveOther ? 1 : 0;
     for (int k = 0; k < n; k++) {
         TranspositionTable tt(1 << 20);
         std::string what = cls + " case " + std::to_string(k);
@@ -408,6 +411,20 @@ static int runAbort(const std::string& cls, uint64_t seed, int n, const std::str
         };
         if (!ok) sample("after aborted generation", false);
         else sample("after completed generation", true);
+        // the table that was resident before (another material class) must not answer from overwritten bytes either
+        if (prefilled && haveOther) {
+            int bad = 0;
+            for (int i = 0; i < 3000 && bad < 3; i++) {
+                int q[4]; bool w;
+                if (!randomLegalPlacement(other, r, q, w, true)) continue;
+                Position pos; buildPosition(other, q, w, pos);
+                int score = 0;
+                bool found = tt.probeDTM(pos, 0, score);
+                int16_t want = DO.v[DO.index(q, w)];
+                rep.add("probes_of_previously_resident_class");
+                if (found && decodeScore(score) != want) { bad++; rep.viol("stale-table-of-other-class-in-use", what + " " + TextIO::toFEN(pos) + " probe says " + std::to_string(decodeScore(score)) + " exact value " + std::to_string(want)); }
+            }
+        }
         // the next search on the same root without limits: must end with a correct table
         RelaxedShared<S64> nl(-1);
         bool ok2 = tt.updateTB(root, nl);
